@@ -23,6 +23,8 @@ type Plugin struct {
 	OnEst func(p *Plugin, session int, w corebgp.UpdateMessageWriter)
 	// Handle decides the handler's return value; n counts UPDATEs of the session from 1.
 	Handle func(p *Plugin, session, n int, b []byte) *corebgp.Notification
+	// OnCloseFn runs inside OnClose (a plugin that joins its own goroutines there).
+	OnCloseFn func(p *Plugin, session int)
 	// NilHandler makes OnEstablished return a nil handler.
 	NilHandler bool
 	// NoYield suppresses the scheduling point inside callbacks.
@@ -122,5 +124,8 @@ func (p *Plugin) OnEstablished(c corebgp.PeerConfig, w corebgp.UpdateMessageWrit
 func (p *Plugin) OnClose(c corebgp.PeerConfig) {
 	p.W.Append(Event{Kind: "OnClose", Phase: "enter", Peer: p.Peer, Session: p.Sessions, Conn: -1})
 	p.yield("plugin.OnClose")
+	if p.OnCloseFn != nil {
+		p.OnCloseFn(p, p.Sessions)
+	}
 	p.W.Append(Event{Kind: "OnClose", Phase: "exit", Peer: p.Peer, Session: p.Sessions, Conn: -1})
 }
